@@ -168,6 +168,59 @@ def body_inprocess(case, rec):
         remap.rmtree(d)
 
 
+def body_inprocess_tpf(case, rec):
+    """
+    Two different tagged maps run one after the other in ONE process with --log-level DEBUG (the DEBUG log shows
+    the chromosome-group table and other internal state); the second run's files must equal those of the same
+    run made alone in a fresh process.
+    """
+    first, second = case["first"], case["second"]
+    rec.note(case, bool(first.get("haps")) and bool(second.get("primary_mode") or second.get("haps")),
+             {"second_primary_mode"} if second.get("primary_mode") else ())
+    d = remap.scratch_dir("vf-c17-")
+    try:
+        runs = {}
+        for tag, c in (("first", first), ("second", second)):
+            ind = d / tag / "in"
+            ind.mkdir(parents=True)
+            (ind / "input.tpf").write_text(remap.input_text(c, "tpf"))
+            (ind / "map.agp").write_text(remap.map_agp_text(c))
+            runs[tag] = (ind / "input.tpf", ind / "map.agp", c.get("prefix", "SUPER_"))
+        src, mp, prefix = runs["second"]
+        alone = d / "alone"
+        alone.mkdir()
+        r = remap.run_cli_subprocess(["-a", src, "-p", mp, "-o", alone / "x.1.tpf", "-c", prefix, "--log-level", "DEBUG"])
+        base = (r.returncode, files_of(alone, drop=(d,)))
+        for tag in ("first", "second"):
+            a, p, pre = runs[tag]
+            outd = d / f"seq_{tag}"
+            outd.mkdir()
+            res = remap.run_cli_inprocess(["-a", a, "-p", p, "-o", outd / "x.1.tpf", "-c", pre, "--log-level", "DEBUG"])
+            if tag == "second":
+                got = (res.exit_code, files_of(outd, drop=(d,)))
+        if got[0] != base[0]:
+            raise Violation(f"exit status {got[0]} after another run in the same process, {base[0]} when run alone")
+        if base[0] == 0:
+            diff_files(base[1], got[1], "second run in one process vs. the same run alone (DEBUG log included)")
+        else:
+            # failed runs: the log (with the naming-error table) is still an output
+            a_, b_ = base[1].get("x.1.log"), got[1].get("x.1.log")
+            if a_ != b_:
+                raise Violation("log of a failing run differs after another run in the same process")
+    finally:
+        remap.rmtree(d)
+
+
+@st.composite
+def inprocess_tpf_cases(draw):
+    first = draw(gen.tagged_case(two_haplotypes=True, primary_mode=False, max_scaffolds=5, max_contigs=4))
+    second = draw(gen.tagged_case(two_haplotypes=True, primary_mode=draw(st.booleans()), max_scaffolds=5, max_contigs=4))
+    # the same haplotype names in both maps, so that what one run has seen can matter for the next
+    if first.get("haps") and second.get("haps") and first["haps"] != second["haps"]:
+        second = draw(gen.tagged_case(two_haplotypes=True, primary_mode=bool(second.get("primary_mode")), max_scaffolds=5, max_contigs=4))
+    return {"first": first, "second": second}
+
+
 def body_formats(case, rec):
     rec.note(case, is_rich(case), ())
     d = remap.scratch_dir("vf-c17-")
@@ -363,6 +416,8 @@ SUBS = [
         budget={"quick": 96, "thorough": 1500}, desc="PYTHONHASHSEED x cwd / relative-absolute arguments (subprocess)"),
     Sub("inprocess", kind="hyp", strategy=inprocess_cases, body=body_inprocess, shrink=False,
         budget={"quick": 160, "thorough": 3000}, desc="cache cold / warm / stale, stream buffer, interleaved invocations in one process"),
+    Sub("inprocess_tpf", kind="hyp", strategy=inprocess_tpf_cases, body=body_inprocess_tpf, shrink=False,
+        budget={"quick": 128, "thorough": 2000}, desc="two tagged two-haplotype maps (second often in Primary mode) run in one process with --log-level DEBUG vs the second run alone in a fresh process"),
     Sub("formats", kind="hyp", strategy=lambda: st.builds(lambda c, b: dict(c, fasta_buffer=b), tagged_fasta_case(), st.sampled_from([None, 1, 5, 10, 60])), body=body_formats, shrink=False,
         budget={"quick": 160, "thorough": 3000}, desc="input as FASTA vs AGP vs TPF"),
     Sub("asm_format", kind="hyp", strategy=asm_format_cases, body=body_asm_format, shrink=False,
